@@ -10,4 +10,11 @@ CHECKS = {
                 technique="bounded-exhaustive enumeration of endpoint lists/RNG cells/count vectors + preemption-bounded exhaustive interleaving exploration (stateless DFS under a controlled scheduler) of the real selectors",
                 text="Every endpoint list n<=4 (5 thorough) x every RNG cell, every round-robin window, every connection-count vector, and every interleaving (round-robin: unbounded; least-connections: <=2/3 preemptions) of concurrent Select/Increment/Decrement run on the real selectors built by balancer.Factory; tier rule, exact fairness and minimal-at-some-moment judged on each.",
                 note="Scheduling points at sync/atomic/xsync operations only; xsync modelled as linearizable; math/rand owned via a seam in priority.go; n, k and thread counts bounded as stated in evidence.bounds."),
+    "C08": dict(pkg="c08", level="model_checking", sync="all", shards=16,
+                clock="internal/adapter/health/circuit_breaker.go,internal/adapter/proxy/olla,internal/adapter/unifier/circuit_breaker.go",
+                inject={"internal/adapter/proxy/olla/zz_verif_export.go": "harness/inject/olla_export.go"},
+                engine="OPS+SCHED",
+                technique="exhaustive enumeration of caller-consistent operation/time histories on the real breakers under a frozen virtual clock against a reference automaton (plus recovery liveness from every reached state), and preemption-bounded exhaustive interleaving exploration of racing callers",
+                text="All histories to depth 7 (9 thorough) over ask/outcome/time events for the health, engine and unifier breakers (4 configurations) are executed on the real objects; every ask answer must be explained by the statement's reference automaton and every reached state must close again once calls succeed. Half-open admission races and failure||success races are explored over all interleavings within 3 preemptions (unbounded thorough).",
+                note="Clock seam via build-time rewrite of time.Now/Since in the three breaker files; engine breaker reached through Service.GetCircuitBreaker via an overlay-injected in-package accessor; boundaries avoided by the time alphabet."),
 }
